@@ -17,7 +17,7 @@
 
     All rule theorems are for ALL widths (up to u32::MAX), both signs, ALL operand terms and
     ALL environments - no bound. *)
-From Patronus Require Import Arith ArithLemmas ArithProofs ArithRoundtrip ArithRoundtripFix.
+From Patronus Require Import Arith ArithLemmas ArithProofs ArithRoundtrip ArithRoundtripFix ArithRulesFix.
 Open Scope N_scope.
 
 (** ** the denotation of a node is derived from what [from_arith] builds *)
@@ -150,6 +150,79 @@ Theorem C19_unmerge_left_shift_rhs_overflow_refuted :
 Proof. exact unmerge_left_shift_rhs_overflow_lemma. Qed.
 Print Assumptions C19_unmerge_left_shift_rhs_overflow_refuted.
 
+(** ** the repaired side conditions ([rules_v Fix] =
+    patches/0016-fix-egraph-rules-derived-width-fits-u32.diff: checked u32 arithmetic in the
+    conditions, which also require the derived right-hand-side width to fit a u32).
+    The two [_refuted] theorems above stay theorems about the shipped rules ([rules_v Cur] = [rules]);
+    for [Fix] the three shift rules are sound at FULL strength - no extra hypothesis. *)
+
+Theorem C19_rules_fixed_are_the_six :
+  rules_v Cur = rules /\
+  rules_v Fix = [ rule_commute_add; rule_commute_mul; rule_merge_left_shift_fix; rule_unmerge_left_shift_fix;
+                  rule_mult_to_add; rule_left_shift_mult_fix ] /\
+  map r_name (rules_v Fix) = map r_name rules /\ map r_lhs (rules_v Fix) = map r_lhs rules /\
+  map r_rhs (rules_v Fix) = map r_rhs rules.
+Proof. repeat split. Qed.
+Print Assumptions C19_rules_fixed_are_the_six.
+
+Theorem rule_merge_left_shift_sound_fixed : forall wo wab wa wb wc sa ta tb tc,
+  width_ok wo -> width_ok wab -> width_ok wa -> width_ok wb -> width_ok wc ->
+  operand_ok wa ta -> operand_ok wb tb -> operand_ok wc tc ->
+  let asg := asg_merge wo wab wa wb wc sa in
+  let sigma := subst_of asg (ops3 ta tb tc) in
+  eval_condition rule_merge_left_shift_fix asg = Ok true ->
+  same_value wo (inst sigma (r_lhs rule_merge_left_shift_fix)) (inst sigma (r_rhs rule_merge_left_shift_fix)).
+Proof. exact rule_merge_left_shift_fixed_lemma. Qed.
+Print Assumptions rule_merge_left_shift_sound_fixed.
+
+Theorem rule_unmerge_left_shift_sound_fixed : forall wo wa wbc wb wc sa ta tb tc,
+  width_ok wo -> width_ok wa -> width_ok wbc -> width_ok wb -> width_ok wc ->
+  operand_ok wa ta -> operand_ok wb tb -> operand_ok wc tc ->
+  let asg := asg_unmerge wo wa wbc wb wc sa in
+  let sigma := subst_of asg (ops3 ta tb tc) in
+  eval_condition rule_unmerge_left_shift_fix asg = Ok true ->
+  same_value wo (inst sigma (r_lhs rule_unmerge_left_shift_fix)) (inst sigma (r_rhs rule_unmerge_left_shift_fix)).
+Proof. exact rule_unmerge_left_shift_fixed_lemma. Qed.
+Print Assumptions rule_unmerge_left_shift_sound_fixed.
+
+Theorem rule_left_shift_mult_sound_fixed : forall wo wab wa wb wc ta tb tc,
+  width_ok wo -> width_ok wab -> width_ok wa -> width_ok wb -> width_ok wc ->
+  operand_ok wa ta -> operand_ok wb tb -> operand_ok wc tc ->
+  let asg := asg_lsm wo wab wa wb wc in
+  let sigma := subst_of asg (ops3 ta tb tc) in
+  eval_condition rule_left_shift_mult_fix asg = Ok true ->
+  same_value wo (inst sigma (r_lhs rule_left_shift_mult_fix)) (inst sigma (r_rhs rule_left_shift_mult_fix)).
+Proof. exact rule_left_shift_mult_fixed_lemma. Qed.
+Print Assumptions rule_left_shift_mult_sound_fixed.
+
+(** the repaired conditions never panic (the shipped left-shift-mult condition does: wa + wb) ... *)
+Theorem C19_fixed_conditions_total :
+  (forall wo wab wa wb wc sa, eval_condition rule_merge_left_shift_fix (asg_merge wo wab wa wb wc sa) <> Panic) /\
+  (forall wo wa wbc wb wc sa, eval_condition rule_unmerge_left_shift_fix (asg_unmerge wo wa wbc wb wc sa) <> Panic) /\
+  (forall wo wab wa wb wc, eval_condition rule_left_shift_mult_fix (asg_lsm wo wab wa wb wc) <> Panic).
+Proof. exact fixed_conditions_total_lemma. Qed.
+Print Assumptions C19_fixed_conditions_total.
+
+(** ... coincide with the shipped ones wherever the derived widths fit ... *)
+Theorem C19_fixed_conditions_agree :
+  (forall wo wab wa wb wc sa, N.max wb wc + 1 <= u32_max ->
+     eval_condition rule_merge_left_shift_fix (asg_merge wo wab wa wb wc sa)
+     = eval_condition rule_merge_left_shift (asg_merge wo wab wa wb wc sa)) /\
+  (forall wo wa wbc wb wc sa, N.max wb wc + 1 <= u32_max -> eval_width_left_shift wa wb <> Panic ->
+     eval_condition rule_unmerge_left_shift_fix (asg_unmerge wo wa wbc wb wc sa)
+     = eval_condition rule_unmerge_left_shift (asg_unmerge wo wa wbc wb wc sa)).
+Proof. exact fixed_conditions_agree_lemma. Qed.
+Print Assumptions C19_fixed_conditions_agree.
+
+(** ... and reject exactly the witnesses of the two [_refuted] theorems *)
+Theorem C19_refutation_witnesses_rejected :
+  eval_condition rule_merge_left_shift (asg_merge 1 1 1 u32_max 1 false) = Ok true /\
+  eval_condition rule_merge_left_shift_fix (asg_merge 1 1 1 u32_max 1 false) = Ok false /\
+  eval_condition rule_unmerge_left_shift (asg_unmerge 1 u32_max 2 1 1 false) = Ok true /\
+  eval_condition rule_unmerge_left_shift_fix (asg_unmerge 1 u32_max 2 1 1 false) = Ok false.
+Proof. exact refutation_witnesses_rejected_lemma. Qed.
+Print Assumptions C19_refutation_witnesses_rejected.
+
 (** ** conversion to the e-graph language and back *)
 
 (** [convertible e]: rooted at add/sub/mul/shl/lshr/ashr, operands are symbols or such
@@ -277,4 +350,14 @@ Example C19_example_roundtrip_fixed :
   convertible_fix (BVSignExt (BVAdd a b 16) 2 18) = true /\
   roundtrip_v Fix (BVSignExt (BVAdd a b 16) 2 18)
     = Ok (BVAdd (BVSignExt (BVAdd a b 16) 2 18) (BVZeroExt (BVLiteral 1 0) 17 18) 18).
+Proof. vm_compute. repeat split. Qed.
+
+(** the repaired conditions hold on ordinary widths (same instances as above) and on the saturated wlsh *)
+Example C19_example_fixed_conditions :
+  eval_condition rule_merge_left_shift_fix (asg_merge 5 6 3 2 2 true) = Ok true /\
+  eval_condition rule_unmerge_left_shift_fix (asg_unmerge 9 3 3 2 2 true) = Ok true /\
+  eval_condition rule_unmerge_left_shift_fix (asg_unmerge 9 7 33 32 3 true) = Ok true /\
+  eval_condition rule_left_shift_mult_fix (asg_lsm 8 5 2 3 2) = Ok true /\
+  eval_condition rule_left_shift_mult (asg_lsm 1 1 u32_max 1 1) = Panic /\
+  eval_condition rule_left_shift_mult_fix (asg_lsm 1 1 u32_max 1 1) = Ok false.
 Proof. vm_compute. repeat split. Qed.
